@@ -31,6 +31,24 @@ PROPS = {
                  "duplicates, overload window [from, from+len). Non-trivial: a re-offer round was needed, or the queue overflowed while traffic of >=2 actors arrived in the overload window. Distinct = hash of the case."),
         "assumptions": ["offers that hit a full ingest channel for 200 ms while the node is blocked count as lost (a timed-out peer)", "the apply loop is played by the harness (same call)"],
     },
+    "C15": {
+        "level": "exploration",
+        "workers": 16,
+        "replay_attempts": 12,
+        "engine": "E2-sim",
+        "technique": "model-based property testing: generated sequences of schema submissions (benign and forbidden edits rendered from a desired-state model, raw statements at generated positions), data writes and crash-restarts against a real setup() node through the real /v1/migrations and /v1/transactions handlers; oracle: before/after observations of the database (table_xinfo, rows, indexes, crsql_changes, __corro_schema, db_version) and of agent.schema()",
+        "level_text": ("each case starts from two tables holding rows, then 4-15 (quick) / 4-29 (thorough) steps: submissions of 1-3 edits (new table, add column with/without default/NOT NULL, add/change/drop index, resubmission; "
+                       "forbidden: drop column, change type/default/nullability, add existing or new column to the primary key, reorder or switch the primary key, unique index, foreign key, NOT NULL without default, "
+                       "table constraints, tables cr-sqlite refuses (no/nullable key, UNIQUE), 12 kinds of raw statements - syntax errors, DROP/ALTER/INSERT/DELETE, TEMP, AS SELECT, VIEW, TRIGGER, orphan index, key "
+                       "expression - at generated positions), rendered for the touched tables or for all; row writes/deletes; crash-image restarts. After a submission answered 200: no table or column disappeared, "
+                       "every existing column definition and primary key (with order) unchanged in the database and in agent.schema(), every existing row and change record kept, agent.schema() describes the database "
+                       "(tables, columns, key order, indexes); optionally re-applied: 200 and nothing changes at all (incl. db_version). Answered otherwise: database, change records, __corro_schema and agent.schema() "
+                       "identical to before. Writes through the API keep succeeding. After restart agent.schema() and the database equal those before"),
+        "level_note": "crash points are between operations (no crash inside the schema transaction: that is SQLite's atomic commit); observations use a dedicated read-only connection; apply_schema iterates tables in HashSet order, so which of two edits of one submission is processed first is not harness-controlled (a replay of a found violation can need several attempts: the replay tier runs such files up to 12 times)",
+        "rule": ("generated as above. Non-trivial: the case had at least one accepted submission that changed the schema AND at least one refused submission of >=2 statements or containing a new table (work to undo). "
+                 "Distinct = hash of the case."),
+        "assumptions": ["cr-sqlite extension binary as shipped in the repository", "a table omitted from a submission is kept (the API merges partial schemas), so 'dropped table' is reachable only as DROP TABLE statement, which the parser refuses"],
+    },
     "C17": {
         "level": "exploration",
         "workers": 16,
